@@ -507,8 +507,12 @@ pub fn run_pem(out_path: &str, tier: &str) {
 	// load, offered to each of rcgen's PEM loaders
 	#[cfg(feature = "crypto")]
 	for o in origins(tier, &mut rng) {
-		for entry in ["auto-pem", "auto-slice"] {
-			let kp = match guarded(|| load_via(&o.bytes, o.label, entry, None)) {
+		for entry in ["auto-pem", "auto-slice", "pem-explicit", "der-explicit"] {
+			let told = if entry.ends_with("explicit") { alg_static(&o.info.alg) } else { None };
+			if entry.ends_with("explicit") && told.is_none() {
+				continue;
+			}
+			let kp = match guarded(|| load_via(&o.bytes, o.label, entry, told)) {
 				Outcome::Ok(k) => k,
 				_ => continue, // whether the load must succeed is C11's matter
 			};
@@ -533,6 +537,9 @@ pub fn run_pem(out_path: &str, tier: &str) {
 				})
 				.collect();
 			pem_event_full("key", &o.info.alg, Some(&der), &t, "na", Value::Array(loaders), &case, &mut out);
+			// the content under the label "PRIVATE KEY" is a PKCS#8 PrivateKeyInfo (shape read by the harness's own DER reader)
+			out.event("PemContent", &case, json!({"kind": "key", "alg": o.info.alg, "fmt": o.fmt, "entry": entry}), "Ok", "",
+				json!({"label": crate::pemx::inspect(&t)["labelBegin"], "contentIsPkcs8": is_pkcs8(&der).0}));
 		}
 	}
 	// a key pair whose private key is not held by rcgen has no DER accessor that returns: no PEM text either
